@@ -160,6 +160,21 @@ CHECKS = {
             "words (proved comparator), on generated DFAs/NFAs incl. empty-string bypass shapes; the AST model is cross-checked against "
             "the source by a proved derivative matcher on all words up to length 5.",
             "", "7/C12"),
+    "C14": ("Coq theorems about an executable specification model (filter over the dictionary-order enumeration) + proved exactness of "
+            "the finiteness test + differential correspondence (exact word lists) against /repo via the extracted model",
+            "Proved for all valid DFAs, all start words (None, empty, rejected, unreadable, longer than max_length - nothing is assumed "
+            "about them), both strictness values, all windows (unbounded sizes): the dictionary order is a decidable strict total order "
+            "(prefix first, then first differing symbol); the model's successor list is strictly increasing, duplicate-free and contains "
+            "exactly the accepted words of the window after start (or equal to it when not strict); predecessors likewise in decreasing "
+            "order; that sequence is unique; strict=False adds exactly the start word; successor/predecessor are the head = least/greatest "
+            "element, None iff the set is empty; predecessors are refused iff the language is infinite (isfinite model proved exact, no "
+            "other error possible); without max_length the state-count bound loses no word of a finite language. Additionally a mirror model "
+            "of the explicit stack machine of DFA.successors (both directions, with the row-8 repair) is proved to generate exactly that "
+            "list whenever it returns (partial correctness, theorems ..._partial; termination within the driver's budget is not proved, "
+            "an Err Fuel answer fails the check). The implementation's output (whole generated list, single-step result, exception "
+            "kind) is compared literally with both models on generated DFAs x keys x starts x windows x directions.",
+            "Symbols are numbered by rank under the user's key (injective keys only). Open known findings: start string with a symbol "
+            "outside the alphabet (KeyError), empty alphabet (IndexError).", "7/C14"),
 }
 
 PENDING = {}
